@@ -31,8 +31,9 @@ RULES = {
     "R10": "view discipline: ScreenSubset / Plate read the parent's per-experiment attributes only through their selection and never delegate a question to the parent screen",
     "R11": "every row number stored in the sampler's per-sample / per-treatment index lists derives from its row count at that moment",
     "R12": "the derived screen attributes this property's code relies on (is_observed, size) have their documented definitions in ScreenBase and every override",
+    "R13": "the training command reads the screen's outcomes only through subset_observed(): no read of the whole screen's observations (masked entries included) can influence or abort training",
 }
-MIN = {"R1": 1, "R2": 3, "R3": 1, "R4": 2, "R5": 3, "R6": 1, "R7": 2, "R8": 1, "R9": 2, "R10": 15, "R11": 3, "R12": 2}
+MIN = {"R1": 1, "R2": 3, "R3": 1, "R4": 2, "R5": 3, "R6": 1, "R7": 2, "R8": 1, "R9": 2, "R10": 15, "R11": 3, "R12": 2, "R13": 1}
 TRUSTED = ["resolved call graph is an over-approximation of the dynamic one (typed resolution + name-CHA fallback + "
            "all overriding subclasses); classes chosen by name on the command line are subclasses of the declared bases",
            "numpy comparison semantics: `x >= 0` is False for NaN"]
@@ -818,7 +819,41 @@ def r_derived(ctx):
     common.derived_attributes(ctx, "R12", ['is_observed', 'size'])
 
 
-RULE_FUNCS = [r1, r2, r3, r4, r5, r6, r7_c04, r8, r9, r10, r11, r_derived]
+def r13(ctx):
+    """Non-interference of masked values ends at the command line: cli.train_model.main loads the whole screen, masked outcomes
+    included.  Whatever it does with the loaded screen besides taking the observed subset and the experiment space must not read
+    the per-row outcomes (`observations`, `single_treatment_effects`): a `fail fast` check over screen.observations makes a NaN stored
+    behind the mask abort training."""
+    f = ctx.fn("cli.train_model.main")
+    loaded = [st.targets[0].id for st in walk_own(f.node) if isinstance(st, ast.Assign) and len(st.targets) == 1 and isinstance(st.targets[0], ast.Name)
+              and isinstance(st.value, ast.Call) and U(st.value.func) == "Screen.load_h5"]
+    ctx.need(len(loaded) == 1, f"{f.site()}: the loaded screen was not found as one `x = Screen.load_h5(..)`")
+    D = loaded[0]
+    par = enclosing_map(f.node)
+    reads, other = [], []
+    for x in walk_own(f.node):
+        if not (isinstance(x, ast.Name) and x.id == D and isinstance(x.ctx, ast.Load)):
+            continue
+        p_ = par.get(x)
+        if isinstance(p_, ast.Attribute) and p_.value is x:
+            if p_.attr in ("observations", "single_treatment_effects", "_observations"):
+                reads.append(U(par.get(p_) if isinstance(par.get(p_), (ast.Call, ast.Attribute, ast.Subscript)) else p_)[:70])
+            continue                       # subset_observed(), size, mappings, ...: judged by the other rules
+        if isinstance(p_, ast.Call) and U(p_.func) in ("ExperimentSpace.from_screen",):
+            continue
+        if isinstance(p_, ast.keyword) or isinstance(p_, ast.Call):
+            c_ = p_ if isinstance(p_, ast.Call) else par.get(p_)
+            other.append(U(c_)[:70])
+    if reads:
+        ctx.bad("R13", f"{f.site()}::outcomes-only-through-the-observed-subset", f"the command reads the whole screen's outcomes ({reads}): values stored behind the mask "
+                f"take part - a masked NaN / out-of-range entry changes or aborts training although it is not an observation")
+        return
+    if other:
+        raise AnalysisError(f"{f.site()}: the loaded screen is handed to {other}; what that reads is not followed by this rule")
+    ctx.ok("R13", f"{f.site()}::outcomes-only-through-the-observed-subset", f"`{D}` is used for subset_observed() and the experiment space only")
+
+
+RULE_FUNCS = [r1, r2, r3, r4, r5, r6, r7_c04, r8, r9, r10, r11, r_derived, r13]
 
 
 def _rep(a, b):
